@@ -7,6 +7,7 @@ import (
 	"io"
 	"os"
 	"path/filepath"
+	"unicode/utf8"
 
 	"github.com/cheggaaa/pb/v3"
 	"github.com/kevin-hanselman/dud/src/agglog"
@@ -394,6 +395,15 @@ func commitWorker(
 ) error {
 	for entry := range inputFiles {
 		path := entry.Name()
+		// The directory manifest is JSON, which cannot represent file names
+		// that aren't valid UTF-8. Fail instead of recording a mangled name.
+		if !utf8.ValidString(path) {
+			return errors.Errorf(
+				"%s: file name %q is not valid UTF-8 and cannot be committed",
+				workPath,
+				path,
+			)
+		}
 		var (
 			childArt *artifact.Artifact
 			err      error
